@@ -110,6 +110,81 @@ def corpus():
     return out
 
 
+def param_order_corpus():
+    """Actions that share parameter NAMES (hence hash-consed parameter sub-expressions) in different orders / with different
+    types, so that plans call them with identical actual-argument tuples; and two problems sharing the same action objects,
+    validated by ONE validator instance of each kind (state carried across validate() calls): A, then B, then A again."""
+    from unified_planning.shortcuts import Fluent, Object, Problem, InstantaneousAction
+    from unified_planning.environment import Environment
+    from unified_planning.engines.plan_validator import SequentialPlanValidator, TimeTriggeredPlanValidator
+    out = []
+
+    def robots(env, label, start_at, goal_at, actions=None):
+        tm, em = env.type_manager, env.expression_manager
+        Loc, Robot = tm.UserType("Loc"), tm.UserType("Robot")
+        p = Problem(label, env)
+        r1 = Object("r1", Robot, env)
+        l1, l2 = Object("l1", Loc, env), Object("l2", Loc, env)
+        p.add_objects([r1, l1, l2])
+        at = Fluent("at", tm.BoolType(), r=Robot, l=Loc, environment=env)
+        visited = Fluent("visited", tm.BoolType(), l=Loc, environment=env)
+        fuel = Fluent("fuel", tm.IntType(0, 3), r=Robot, environment=env)
+        p.add_fluent(at, default_initial_value=False); p.add_fluent(visited, default_initial_value=False)
+        p.add_fluent(fuel, default_initial_value=2)
+        p.set_initial_value(at(r1, l1 if start_at == "l1" else l2), True)
+        if actions is None:
+            go = InstantaneousAction("go", r=Robot, frm=Loc, to=Loc, _env=env)
+            back = InstantaneousAction("back", r=Robot, to=Loc, frm=Loc, _env=env)        # same names, other order
+            for a in (go, back):
+                r, frm, to = a.parameter("r"), a.parameter("frm"), a.parameter("to")
+                a.add_precondition(at(r, frm))                                                # the very same FNode in both actions
+                a.add_precondition(em.Not(em.Equals(frm, to)))
+                a.add_effect(at(r, frm), False); a.add_effect(at(r, to), True)
+            go.add_effect(visited(go.parameter("to")), True)
+            go.add_decrease_effect(fuel(go.parameter("r")), 1)
+            back.add_precondition(em.GE(fuel(back.parameter("r")), 1))
+            actions = [go, back]
+        for a in actions:
+            p.add_action(a)
+        p.add_goal(at(r1, l1 if goal_at == "l1" else l2))
+        return p, actions
+
+    p, _ = robots(Environment(), "param-order-robots", "l1", "l1")
+    p.add_goal(p.fluent("visited")(p.object("l2")))
+    out.append(sx.HandProblem(p, "param-order-robots"))
+    # same names, permuted, plus a parameter of another type under a shared name
+    env = Environment()
+    tm, em = env.type_manager, env.expression_manager
+    T = tm.UserType("T")
+    p = Problem("param-order-copy", env)
+    o1, o2 = Object("o1", T, env), Object("o2", T, env)
+    p.add_objects([o1, o2])
+    w = Fluent("w", tm.IntType(0, 4), x=T, environment=env)
+    p.add_fluent(w, default_initial_value=1); p.set_initial_value(w(o2), 2)
+    mv = InstantaneousAction("mv", a=T, b=T, _env=env)
+    mv.add_precondition(em.LT(w(mv.parameter("a")), w(mv.parameter("b"))))
+    mv.add_effect(w(mv.parameter("a")), w(mv.parameter("b")))
+    mv2 = InstantaneousAction("mv2", b=T, a=T, _env=env)
+    mv2.add_precondition(em.LT(w(mv2.parameter("a")), w(mv2.parameter("b"))))
+    mv2.add_effect(w(mv2.parameter("a")), em.Plus(w(mv2.parameter("b")), 1))
+    bump = InstantaneousAction("bump", a=T, b=tm.IntType(1, 2), _env=env)                    # name b, another type
+    bump.add_increase_effect(w(bump.parameter("a")), bump.parameter("b"))
+    for a in (mv, mv2, bump):
+        p.add_action(a)
+    p.add_goal(em.GE(w(o1), 2))
+    out.append(sx.HandProblem(p, "param-order-copy"))
+    # two problems, the same action objects, one validator instance of each kind: A, B, A again
+    env = Environment()
+    pa, acts = robots(env, "shared-actions-A", "l1", "l2")
+    pb, _ = robots(env, "shared-actions-B", "l2", "l1", actions=acts)
+    validators = (SequentialPlanValidator(environment=env), TimeTriggeredPlanValidator(environment=env))
+    for q, label in ((pa, "shared-actions-A"), (pb, "shared-actions-B"), (pa, "shared-actions-A-again")):
+        hp = sx.HandProblem(q, label)
+        hp.validators = validators
+        out.append(hp)
+    return out
+
+
 # ---------------------------------------------------------------------- small "meta" problems (half-bounded types, simulated effects)
 OPS = {"<=": lambda a, b: a <= b, ">=": lambda a, b: a >= b, "==": lambda a, b: a == b}
 
@@ -342,7 +417,7 @@ def run(ctx):
              "lengths": {}, "time_order_differs_from_list_order": 0, "bounded_fluents": 0, "invariants": 0,
              "dropped_trivially_invalid": 0}
     nontrivial = set()
-    gens = [(hp, None) for hp in sx.corpus_problems() + corpus() + half_bounded_family(rng, 6 if ctx.quick else 40)]
+    gens = [(hp, None) for hp in sx.corpus_problems() + corpus() + param_order_corpus() + half_bounded_family(rng, 6 if ctx.quick else 40)]
     for i in range(nprob):
         gens.append((None, {"max_actions": 2}))
     for pi, (hp, knobs) in enumerate(gens):
@@ -372,8 +447,12 @@ def run(ctx):
             plans += allp[:(cap * 4) // maxlen]
         for _ in range(2):
             plans.append(tuple(rng.randrange(len(insts)) for _ in range(rng.randint(4, 5))))
-        seqv = SequentialPlanValidator(environment=problem.environment)
-        ttv = TimeTriggeredPlanValidator(environment=problem.environment)
+        if getattr(gen, "validators", None) is not None:
+            seqv, ttv = gen.validators                      # one instance of each kind shared by several problems
+            stats["shared_validator_problems"] = stats.get("shared_validator_problems", 0) + 1
+        else:
+            seqv = SequentialPlanValidator(environment=problem.environment)
+            ttv = TimeTriggeredPlanValidator(environment=problem.environment)
         recs = []
         for plan in plans:
             times = distinct_times(rng, len(plan))
